@@ -68,6 +68,8 @@ struct IBits {
 	virtual void none(int r, bool &f, bool &s) = 0;
 	virtual void eq(int r, int r2, bool &f, bool &s) = 0;
 	virtual size_t size(int r) = 0;
+	virtual void xset(int r, size_t p) = 0;
+	virtual bool xtest(int r, size_t p) = 0;
 };
 
 template <size_t N>
@@ -127,6 +129,8 @@ struct Impl : IBits {
 	void none(int r, bool &a, bool &b) override { a = f[r]->none(); b = s[r].none(); }
 	void eq(int r, int r2, bool &a, bool &b) override { a = (*f[r] == *f[r2]); b = (s[r] == s[r2]); }
 	size_t size(int r) override { return f[r]->size(); }
+	void xset(int r, size_t p) override { f[r]->set(p); }
+	bool xtest(int r, size_t p) override { return f[r]->test(p); }
 };
 
 #ifndef BITS_SIZES
@@ -175,6 +179,7 @@ static void qbool(const char *what, size_t N, const std::string &line, bool f, b
 static void bitset_case(const vh::Lines &ls, size_t N) {
 	IBits *b = make_bits(N);
 	if(!b) { printf("unsupported-size %zu\n", N); return; }
+	bool out_of_domain = false;
 	for(size_t li = 1; li < ls.size(); li++) {
 		auto t = vh::split(ls[li]);
 		const std::string &o = t[0];
@@ -215,9 +220,15 @@ static void bitset_case(const vh::Lines &ls, size_t N) {
 		else if(o == "none") { b->none(R(1), f, s); qbool("none", N, ls[li], f, s); }
 		else if(o == "eq") { b->eq(R(1), R(2), f, s); qbool("operator==", N, ls[li], f, s); }
 		else if(o == "size") { printf("n %zu\n", b->size(R(1))); if(b->size(R(1)) != N) oracle("bitset-ref", "size() = %zu for bitset<%zu>", b->size(R(1)), N); }
+		// pos in [N, 64*ceil(N/64)): outside std::bitset's domain (it throws); the existing repo test
+		// bitset::setters_and_getters relies on it, so it is compared with the model only and the
+		// std::bitset oracle is switched off for the rest of the script
+		else if((o == "xset" || o == "xtest") && P(2) >= 64 * b->nwords()) { printf("UB\n"); delete b; return; }
+		else if(o == "xset") { tgt = R(1); b->xset(tgt, P(2)); out_of_domain = true; }
+		else if(o == "xtest") { printf("b %d\n", (int)b->xtest(R(1), P(2))); }
 		else { printf("?\n"); continue; }
 		if(tgt >= 0) print_words(b, tgt);
-		check_regs(b, ls[li].c_str());
+		if(!out_of_domain) check_regs(b, ls[li].c_str());
 	}
 	for(int r = 0; r < NREG; r++) print_words(b, r);
 	delete b;
@@ -336,12 +347,13 @@ static void mt_case(const vh::Lines &ls) {
 		auto t = vh::split(ls[i]);
 		if(t[0] == "seed") { uint32_t s = (uint32_t)vh::u64(t[1]); g.seed(s); ref.seed(s); printf("u\n"); }
 		else if(t[0] == "gen") {
-			size_t k = vh::u64(t[1]); bool bad = false;
+			size_t k = vh::u64(t[1]); bool bad = false; size_t bj = 0; uint32_t bx = 0, by = 0;
 			for(size_t j = 0; j < k; j++) {
 				uint32_t x = g(), y = (uint32_t)ref();
 				printf(j % 8 == 7 || j + 1 == k ? "%08x\n" : "%08x ", x);
-				if(x != y && !bad) { bad = true; oracle("mt-ref", "mt19937 output %zu of this gen is %08x, std::mt19937 gives %08x", j, x, y); }
+				if(x != y && !bad) { bad = true; bj = j; bx = x; by = y; }
 			}
+			if(bad) oracle("mt-ref", "mt19937 output %zu of this gen is %08x, std::mt19937 gives %08x", bj, bx, by);
 		}
 		else if(t[0] == "state") {   // the whole private state
 			printf("ctr %d\n", g._ctr);
@@ -397,22 +409,25 @@ static void pcg_case(const vh::Lines &ls) {
 		else if(t[0] == "ctor1") { uint64_t s = vh::u64(t[1]); g = frg::pcg_basic32(s); pcg32_srandom_r(&ref, s, 1); alt_state = ref.state; show(); }
 		else if(t[0] == "seed") { uint64_t s = vh::u64(t[1]), q = vh::u64(t[2]); g.seed(s, q); pcg32_srandom_r(&ref, s, q); alt_state = ref.state; show(); }
 		else if(t[0] == "gen") {
-			size_t k = vh::u64(t[1]); bool bad = false;
+			size_t k = vh::u64(t[1]); bool bad = false; size_t bj = 0; uint32_t bx = 0, by = 0, bz = 0;
 			for(size_t j = 0; j < k; j++) {
 				uint32_t x = g(), y = pcg32_random_r(&ref), z = pcg_alt(alt_state, ref.inc);
 				printf(j % 8 == 7 || j + 1 == k ? "%08x\n" : "%08x ", x);
-				if((x != y || x != z) && !bad) { bad = true; oracle("pcg-ref", "pcg output %zu is %08x, reference %08x, 128-bit/rotr formulation %08x", j, x, y, z); }
+				if((x != y || x != z) && !bad) { bad = true; bj = j; bx = x; by = y; bz = z; }
 			}
+			if(bad) oracle("pcg-ref", "pcg output %zu is %08x, reference %08x, 128-bit/rotr formulation %08x", bj, bx, by, bz);
 			show();
 		}
 		else if(t[0] == "bounded") {
-			uint32_t bound = (uint32_t)vh::u64(t[1]); size_t k = vh::u64(t[2]); bool bad = false;
+			uint32_t bound = (uint32_t)vh::u64(t[1]); size_t k = vh::u64(t[2]); int bad = 0; size_t bj = 0; uint32_t bx = 0, by = 0;
 			for(size_t j = 0; j < k; j++) {
 				uint32_t x = g(bound), y = pcg32_boundedrand_r(&ref, bound);
 				printf(j % 8 == 7 || j + 1 == k ? "%u\n" : "%u ", x);
-				if(x >= bound && !bad) { bad = true; oracle("pcg-bound", "bounded draw %u is not below the bound %u", x, bound); }
-				if(x != y && !bad) { bad = true; oracle("pcg-ref", "bounded draw %zu is %u, reference %u (bound %u)", j, x, y, bound); }
+				if(x >= bound && !bad) { bad = 1; bj = j; bx = x; by = y; }
+				if(x != y && !bad) { bad = 2; bj = j; bx = x; by = y; }
 			}
+			if(bad == 1) oracle("pcg-bound", "bounded draw %u is not below the bound %u", bx, bound);
+			if(bad == 2) oracle("pcg-ref", "bounded draw %zu is %u, reference %u (bound %u)", bj, bx, by, bound);
 			alt_state = ref.state;
 			show();
 		}
@@ -420,8 +435,10 @@ static void pcg_case(const vh::Lines &ls) {
 			// published check vector of pcg-c-basic (pcg32-demo: seed 42, sequence 54)
 			static const uint32_t want[6] = {0xa15c02b7u, 0x7b47f409u, 0xba1d3330u, 0x83d2f293u, 0xbfa4784bu, 0xcbed606eu};
 			frg::pcg_basic32 d(42, 54);
+			int bj = -1; uint32_t bx = 0;
 			for(int j = 0; j < 6; j++) { uint32_t x = d(); printf(j == 5 ? "%08x\n" : "%08x ", x);
-				if(x != want[j]) oracle("pcg-ref", "demo vector: output %d is %08x, published %08x", j, x, want[j]); }
+				if(x != want[j] && bj < 0) { bj = j; bx = x; } }
+			if(bj >= 0) oracle("pcg-ref", "demo vector: output %d is %08x, published %08x", bj, bx, want[bj]);
 		}
 		else printf("?\n");
 	}
